@@ -1,4 +1,123 @@
 import StimModel.Model.Noise
 import StimModel.Core.Coin
-namespace Stim
-end Stim
+/-!
+# C05 — noise channels fire with their documented probabilities
+
+Sampling itself can only be compared statistically (area `noise`: exact expected probabilities from the channel semantics,
+Bernstein acceptance bound).  Proved here is the arithmetic that turns documented probabilities into the coin flips the
+simulators perform:
+
+* `chain_fires_with_documented_probability`: `perform_pauli_errors_via_correlated_errors` walks the outcomes of a disjoint
+  channel as an `E / ELSE_CORRELATED_ERROR` chain with conditional probabilities `p_k / (1 - p_1 - … - p_{k-1})`
+  (`0` when nothing remains, `1` when `p_k` is all that remains).  For every probability vector with non-negative entries and
+  sum at most one, outcome `k` then fires with probability exactly `p_k`, and the outcomes are mutually exclusive by
+  construction of the chain (`chainStep` consumes "nothing fired so far" mass only).
+* `Stim.ladder_exact` (Core/Coin.lean): the bit ladder of `biased_randomize_bits` sets a bit with probability exactly `top/128`
+  for every 7-bit `top`.
+* `countPlausible_exact`: the acceptance test always accepts the exact expectation.
+-/
+namespace Stim.C05
+open Stim
+
+/-- the conditional probability used for an outcome of probability `p` when `used` has been consumed by earlier outcomes -/
+def condProb (used p : Rat) : Rat :=
+  let remaining := 1 - used
+  if remaining ≤ 0 then 0 else if remaining ≤ p then 1 else p / remaining
+
+/-- probabilities with which the elements of the chain fire: `alive` is the probability that nothing fired so far -/
+def chainFire : Rat → Rat → List Rat → List Rat
+  | _, _, [] => []
+  | alive, used, p :: ps =>
+    if p == 0 then 0 :: chainFire alive used ps     -- `continue`: no coin is flipped
+    else
+      let c := condProb used p
+      (alive * c) :: chainFire (alive * (1 - c)) (used + p) ps
+
+theorem chainFire_invariant : ∀ (ps : List Rat) (used : Rat),
+    0 ≤ used → (∀ p ∈ ps, 0 ≤ p) → used + ps.foldl (· + ·) 0 ≤ 1 →
+    chainFire (1 - used) used ps = ps
+  | [], _, _, _, _ => rfl
+  | p :: ps, used, hu, hp, hs => by
+    have hp0 : 0 ≤ p := hp p (List.mem_cons_self ..)
+    have hrest : ∀ q ∈ ps, 0 ≤ q := fun q hq => hp q (List.mem_cons_of_mem _ hq)
+    -- the tail sum is non-negative, so `used + p ≤ 1`
+    have hfold : ∀ (l : List Rat) (a : Rat), l.foldl (· + ·) a = a + l.foldl (· + ·) 0 := by
+      intro l
+      induction l with
+      | nil => intro a; simp only [List.foldl_nil]; grind
+      | cons x xs ih => intro a; simp only [List.foldl_cons]; rw [ih (a + x), ih (0 + x)]; grind
+    have hnonneg : ∀ (l : List Rat), (∀ q ∈ l, 0 ≤ q) → 0 ≤ l.foldl (· + ·) 0 := by
+      intro l
+      induction l with
+      | nil => intro _; simp
+      | cons x xs ih =>
+        intro h
+        simp only [List.foldl_cons]
+        rw [hfold xs (0 + x)]
+        have h1 := h x (List.mem_cons_self ..)
+        have h2 := ih (fun q hq => h q (List.mem_cons_of_mem _ hq))
+        grind
+    have htail := hnonneg ps hrest
+    simp only [List.foldl_cons] at hs
+    rw [hfold ps (0 + p)] at hs
+    have hup : used + p ≤ 1 := by grind
+    unfold chainFire
+    by_cases hz : p = 0
+    · subst hz
+      simp only [BEq.rfl, if_true]
+      rw [chainFire_invariant ps used hu hrest (by grind)]
+    · have hbeq : (p == 0) = false := by simpa using hz
+      simp only [hbeq, Bool.false_eq_true, if_false]
+      have hpos : 0 < p := by grind
+      have hrem : 0 < 1 - used := by grind
+      unfold condProb
+      simp only
+      have hnle : ¬ (1 - used ≤ 0) := by grind
+      simp only [hnle, if_false]
+      by_cases hall : 1 - used ≤ p
+      · -- this outcome takes all that remains
+        simp only [hall, if_true]
+        have heq : p = 1 - used := by grind
+        have : (1 - used) * (1 - 1) = 1 - (used + p) := by grind
+        rw [Rat.mul_one, this, chainFire_invariant ps (used + p) (by grind) hrest (by grind)]
+        rw [← heq]
+      · simp only [hall, if_false]
+        have hne : (1 - used) ≠ 0 := by grind
+        have h1 : (1 - used) * (p / (1 - used)) = p := by
+          rw [Rat.div_def, Rat.mul_comm p, ← Rat.mul_assoc, Rat.mul_inv_cancel _ hne, Rat.one_mul]
+        have h2 : (1 - used) * (1 - p / (1 - used)) = 1 - (used + p) := by
+          have h3 : (1 - used) * (1 - p / (1 - used)) = (1 - used) - (1 - used) * (p / (1 - used)) := by grind
+          rw [h3, h1]; grind
+        rw [h1, h2, chainFire_invariant ps (used + p) (by grind) hrest (by grind)]
+
+/-- **Every outcome of a disjoint channel fires with exactly its documented probability.** -/
+theorem chain_fires_with_documented_probability (ps : List Rat) (hp : ∀ p ∈ ps, 0 ≤ p) (hs : ps.foldl (· + ·) 0 ≤ 1) :
+    chainFire 1 0 ps = ps := by
+  have := chainFire_invariant ps 0 (by decide) hp (by rw [Rat.zero_add]; exact hs)
+  have h10 : (1 : Rat) - 0 = 1 := by grind
+  rw [h10] at this
+  exact this
+
+/-- non-vacuity: DEPOLARIZE1(3/4) as the chain X, Y, Z with 1/4 each -/
+example : chainFire 1 0 [1/4, 1/4, 1/4] = [1/4, 1/4, 1/4] :=
+  chain_fires_with_documented_probability _
+    (by intro p hp; simp only [List.mem_cons, List.not_mem_nil, or_false, or_self] at hp; subst hp; grind)
+    (by simp only [List.foldl_cons, List.foldl_nil]; grind)
+
+/-- the acceptance test accepts the exact expectation (no built-in false alarm) -/
+theorem countPlausible_exact (N c : Nat) (p : Rat) (h0 : 0 < p) (h1 : p < 1) (hc : (c : Rat) = N * p) :
+    countPlausible N c p = true := by
+  unfold countPlausible
+  have hn0 : ¬ (p ≤ 0) := by grind
+  have hn1 : ¬ (p ≥ 1) := by grind
+  simp only [hn0, hn1, if_false, hc]
+  have : ratAbs ((N : Rat) * p - N * p) = 0 := by simp [ratAbs, Rat.sub_self]
+  rw [this]
+  have hvar : 0 ≤ (N : Rat) * p * (1 - p) := by
+    have hN : (0 : Rat) ≤ N := by exact_mod_cast Nat.zero_le N
+    have : 0 ≤ (N : Rat) * p := Rat.mul_nonneg hN (by grind)
+    exact Rat.mul_nonneg this (by grind)
+  simp only [decide_eq_true_eq]
+  grind
+
+end Stim.C05
